@@ -87,6 +87,14 @@ def namedBranches (w : World) : Cmd → List Bytes
 
 macro "heads_by " f:ident : tactic => `(tactic| (
   unfold $f
+  try unfold branchCreate
+  try unfold branchRename
+  try unfold branchDelete
+  try unfold switchTo
+  try unfold switchCreate
+  try unfold updateRefTo
+  try unfold resetTo
+  try unfold commitWrite
   try dsimp only
   repeat' split
   all_goals first | rfl | (simp_all [setHead, appendLogHead, appendLogBranch, putObj_heads', putObjs_heads', writeEntries_heads', aget_aset_ne, aget_adel_ne])))
